@@ -41,6 +41,12 @@ def run(chk):
     d5_commutative_metadata(chk, repo)
     d6_label_mapping(chk, repo)
     d7_ctor_conformance(chk, repo)
+    cm.no_dtype_narrowing(chk, repo, "C03", "C03.D2",
+                          ["field.Field._apply_operator", "field.Field.dot", "field.Field.cross", "field.Field.angle",
+                           "field.Field.__abs__", "field.Field.__neg__", "field.Field.phase", "field.Field.abs",
+                           "field.Field.real", "field.Field.imag", "field.Field.conjugate"],
+                          "numpy decides the result type of the operation (int/2 is float, abs of complex is real) - casting "
+                          "back to the operand's dtype changes the values")
     chk.trust("numpy ufuncs np.add/subtract/multiply/divide/power/abs/angle/cross/einsum/stack compute cell-wise with "
               "broadcasting as documented")
     chk.assume("numerical equality with numpy broadcasting for all dtypes is not decided; only that each operator applies "
@@ -324,6 +330,19 @@ def d4_rejection(chk, repo):
             ok = names == sorted([("self._pmin", "param:other._pmin"), ("self._pmax", "param:other._pmax")])
     chk.ob("region.Region.allclose::definition", ok, "C03.D4",
            f"Region.allclose must be np.allclose of both corner pairs; found {det}", v.f)
+    # equality of meshes / regions (what `<<` relies on)
+    v = FV(repo, "mesh.Mesh.__eq__", param_types={"other": MESH})
+    rets = [r for r in v.returns() if r.value is not None]
+    want = v.spec("self.region == other.region and all(self.n == other.n)")
+    want2 = v.spec("self.region == other.region and np.array_equal(self.n, other.n)")
+    chk.ob("mesh.Mesh.__eq__::definition", any(v.eq(v.ev.term(r.value, at=r), want) or v.eq(v.ev.term(r.value, at=r), want2) for r in rets),
+           "C03.D4", "meshes are equal iff their regions are equal and all cell counts agree", v.f)
+    v = FV(repo, "region.Region.__eq__", param_types={"other": REGION})
+    rets = [r for r in v.returns() if r.value is not None]
+    want = v.spec("np.array_equal(self.pmin, other.pmin) and np.array_equal(self.pmax, other.pmax) and self.dims == other.dims "
+                  "and self.units == other.units")
+    chk.ob("region.Region.__eq__::definition", any(v.eq(v.ev.term(r.value, at=r), want) for r in rets), "C03.D4",
+           "regions are equal iff both corners, the dimension names and the units agree", v.f)
     # stacking
     v = FV(repo, "field.Field.__lshift__", param_types={"other": FIELD})
     ifst, first = cm.field_branch_stmt(v, "other")
